@@ -307,8 +307,10 @@ where
         for (x, v) in extension.iter() {
             match dstore.get(x) {
                 Some(domain) => {
+                    // `v` may itself have been bound later in the same unification.
+                    let v = self.smap_ref().walk(v).clone();
                     self = self
-                        .process_domain(v, domain.clone())?
+                        .process_domain(&v, domain.clone())?
                         .remove_domain(x)?
                         .run_constraints()?
                 }
